@@ -3,7 +3,7 @@
 constants of type phf::Map<&str, T>; resolve table roles (eager / lazy / data)
 from how the tables are used, not from their names."""
 import re
-from .core import op_const, const_value, callee_path
+from .core import op_const, const_value, callee_path, callee_of
 from .engine import Inconclusive
 
 INF = float("inf")
@@ -50,6 +50,7 @@ class Table:
         self.role = None  # 'eager' | 'lazy' | 'data'
         self.fn_ty = None
         self.operation_impl = None  # (from_value body key, evaluate body key)
+        self.other_users = []
 
 
 def _local_assigns(body):
@@ -206,8 +207,16 @@ def _assign_roles(facts, tables):
                     if c and c.get("item") == t.const_key:
                         users.append(b.parent)
         users = sorted(set(users))
-        if len(users) != 1:
-            raise Inconclusive("table %s is referenced from %d functions (expected exactly one parser)" % (t.const_key, len(users)))
+        # the parser is the user that hands the table to the dispatcher; other users are recorded for C02
+        parsers_ = []
+        for u in users:
+            ub = facts.body(u)
+            if ub is not None and any((callee_path(tm) or "").endswith("op_from_map") or (callee_of(tm) and callee_of(tm)["local"] and any((callee_path(t2) or "") == "phf::Map::<K, V>::get" for _, t2 in facts.body(callee_of(tm)["key"]).calls())) for _, tm in ub.calls()):
+                parsers_.append(u)
+        if len(parsers_) != 1:
+            raise Inconclusive("table %s is handed to the dispatcher from %d functions (expected exactly one parser)" % (t.const_key, len(parsers_)))
+        t.other_users = [u for u in users if u != parsers_[0]]
+        users = parsers_
         fv = users[0]
         impl = fv.rsplit("::", 1)[0]
         evs = [b.key for b in facts.bodies.values() if b.kind == "fn" and b.key.startswith(impl + "::") and b.key != fv and b.key.count("::") == fv.count("::")]
